@@ -6,7 +6,6 @@ from .. import core, sx
 from ..impl import wsgi
 
 MAXRAM = 1000
-ST_EXC = {'EOFError': 1, 'ValueError': 2, 'UnboundLocalError': 3}
 BCHARS = "abcXYZ019'()+_-./:=? "
 LATIN = 'iso-8859-1'
 
@@ -72,6 +71,10 @@ def classify(c):
     b = b'--' + c['ib'].encode('ascii')
     if c.get('cut') is not None:
         return 'truncated'
+    if not re.fullmatch(r'[ -~]{0,200}[!-~]', c['ib']):
+        return 'badboundary'
+    if c.get('chunked'):
+        return 'chunked'
     if any(is_proc_type(p['ct']) for p in c['parts']):
         return 'proc'
     if any(not no_delim_line(b, p['body']) for p in c['parts']):
@@ -382,6 +385,20 @@ class C04(core.Check):
         c['cut'] = rng.randrange(0, n) if n else 0
         return c
 
+    def gen_chunked(self, rng):
+        """Transfer-Encoding: chunked, no Content-Length (outside the property's quantifier, which speaks of a
+        declared Content-Length): correspondence only"""
+        c = self.gen_case(rng)
+        c['chunked'] = True
+        c['extra'] = b''
+        return c
+
+    def gen_badboundary(self, rng):
+        """boundary parameter refused by process_multipart (HTTPError 400)"""
+        c = self.gen_case(rng)
+        c['ib'] = rng.choice(['', 'ab ', ' ', 'x' * 202, 'a\x7fb', 'a\tb', 'b' * 201 + ' '])
+        return c
+
     def gen_undecodable(self, rng):
         c = self.gen_case(rng)
         if not c['parts']:
@@ -407,6 +424,14 @@ class C04(core.Check):
 
     def cases(self):
         rng = self.rng
+        self.notes.append(
+            'stream "chunked" (Transfer-Encoding: chunked, no Content-Length) is outside the quantifier of C04 and is run '
+            'for the model/implementation correspondence only; observed there: process_multipart stops after the first '
+            'part whenever the reader has already hit EOF while filling its buffer (fp.done is used as "close delimiter '
+            'seen"), so following parts are silently dropped - see distribution key chunked:parts-silently-dropped')
+        self.notes.append(
+            'header folding inside a part header (continuation line) is joined with ", " by read_headers, so a folded '
+            'Content-Disposition loses its name parameter; folding is not generated (outside the property text)')
         quick = self.tier == 'quick'
         out = []
         n_main = 3000 if quick else 40000
@@ -417,6 +442,8 @@ class C04(core.Check):
         out += [self.gen_proc(rng) for _ in range(40 if quick else 500)]
         out += [self.gen_truncated(rng) for _ in range(150 if quick else 3000)]
         out += [self.gen_undecodable(rng) for _ in range(60 if quick else 1000)]
+        out += [self.gen_chunked(rng) for _ in range(150 if quick else 2000)]
+        out += [self.gen_badboundary(rng) for _ in range(30 if quick else 300)]
         ex = list(self.exhaustive(3, (1, 8192)) if quick else
                   itertools.chain(self.exhaustive(5, (1, 3, 8192)), self.exhaustive(6, (2,))))
         # contents that contain a real delimiter are outside every stream
@@ -453,7 +480,8 @@ class C04(core.Check):
                    [[None if p['name'] is None else [p['name']], None if p['filename'] is None else [p['filename']],
                      None if p['ct'] is None else [p['ct']], p['body']] for p in c['parts']],
                    c['tail']]]
-        return [body + c['extra'], c['frags'], [len(body)], c['bufsize'], MAXRAM, c['mode'] == 'mixed', c['ib'], pr]
+        return [body + c['extra'], c['frags'], None if c.get('chunked') else [len(body)], c['bufsize'], MAXRAM,
+                c['mode'] == 'mixed', c['ib'], pr]
 
     # ------------------------------------------------------------ implementation side
     def impl(self, c):
@@ -465,7 +493,8 @@ class C04(core.Check):
         if re.fullmatch(r"[A-Za-z0-9'()+_./:?-]+", ib) and len(ib) % 2:
             ctype = 'multipart/%s; boundary=%s' % ('form-data' if c['mode'] == 'form' else 'mixed', ib)
         try:
-            res = wsgi.call(self.app, 'POST', '/', headers=[('Content-Type', ctype), ('Content-Length', str(len(body)))],
+            framing = ('Transfer-Encoding', 'chunked') if c.get('chunked') else ('Content-Length', str(len(body)))
+            res = wsgi.call(self.app, 'POST', '/', headers=[('Content-Type', ctype), framing],
                             body=body + c['extra'], frags=list(c['frags']), chunked=True)
         finally:
             self._rb.bufsize = self._bufsize0
@@ -525,15 +554,13 @@ class C04(core.Check):
                 return 'fp.done: model %s impl %s' % (m_done, obs['done'])
             return None
         if st in (400, 413):
+            # HTTPError(400): malformed multipart framing / part headers, or an undecodable field
             if obs['status'] != st:
-                return 'model status %d, implementation %s' % (st, obs['status'])
+                return 'model status %d, implementation %s (%s)' % (st, obs['status'], obs.get('exc'))
+            if m_taken != obs['consumed']:
+                return 'bytes taken from wsgi.input before the %d: model %d impl %d' % (st, m_taken, obs['consumed'])
             return None
-        want = {v: k for k, v in ST_EXC.items()}[st]
-        if obs['status'] != 500 or obs.get('exc') != want:
-            return 'model raises %s, implementation answered %s (%s)' % (want, obs['status'], obs.get('exc'))
-        if m_taken != obs['consumed']:
-            return 'bytes taken from wsgi.input before the error: model %d impl %d' % (m_taken, obs['consumed'])
-        return None
+        return 'unexpected model status %r' % (st,)
 
     # ------------------------------------------------------------ property oracle
     def expected(self, c):
@@ -542,7 +569,10 @@ class C04(core.Check):
         for p in c['parts']:
             if p['filename'] is None:
                 cs = ct_charset(p['ct'])
-                v = ('field', p['body'].decode(LATIN if cs in (LATIN, 'latin-1') else 'utf-8'))
+                try:
+                    v = ('field', p['body'].decode(LATIN if cs in (LATIN, 'latin-1') else 'utf-8'))
+                except UnicodeDecodeError:
+                    v = ('field', None)
             else:
                 v = ('file', p['filename'], ct_value(p['ct']), p['body'])
             vals.append((p['name'], v))
@@ -557,8 +587,15 @@ class C04(core.Check):
 
     def oracle(self, c, obs):
         cls = classify(c)
-        if cls in ('invalid', 'truncated'):
-            # malformed input: only the bound on consumption is demanded here (4xx-vs-5xx is C07's)
+        if cls == 'chunked':
+            # no declared length: outside the property text; record what happens, demand nothing
+            if obs.get('status') == 200 and 'params' in obs:
+                n_seen = sum(len(vs) for _, _, vs in obs['params']) + (len(obs['parts']) if c['mode'] == 'form' else 0)
+                if n_seen < len(c['parts']):
+                    self.count('chunked:parts-silently-dropped(fp.done set by the buffer fill)')
+            return []
+        if cls in ('invalid', 'truncated', 'badboundary'):
+            # malformed input (answered 400 since b533e91; 4xx-vs-5xx is C07's): only the bound on consumption is demanded
             if obs['consumed'] > obs['clen']:
                 return [('overread', 'consumed %d bytes, Content-Length %d' % (obs['consumed'], obs['clen']))]
             return []
